@@ -2,6 +2,7 @@
 import sys, os, importlib
 VERIF = os.path.dirname(os.path.dirname(os.path.abspath(__file__)))
 sys.path.insert(0, VERIF)
+os.environ['VERIF_ONLY_UNIT'] = sys.argv[1]
 from vx.check import run_unit, load_units
 units, specs = load_units()
 oc = run_unit(units[sys.argv[1]])
